@@ -44,7 +44,13 @@ func VfN_wat_pos() int { return len(vfWatPos) }
 
 func VfH_wat_pos() {
 	pos := vfWatPos[vfCase()]
-	vfNote("case:" + pos[0])
+	name := []byte(pos[0])
+	for i, ch := range name {
+		if ch == ' ' {
+			name[i] = '_'
+		}
+	}
+	vfNote("case:" + string(name))
 	b := vfBytes("b", 2)
 	src := append(append([]byte(pos[0]), b[0], b[1]), pos[1]...)
 	p := vfCatch(func() { ParseModule("a.wat", src) })
